@@ -206,11 +206,11 @@ def _multi(prog):
 # --------------------------------------------------------------------------- cross-process
 CONFIGS = [
     {"PYTHONHASHSEED": "0", "LANG": "C", "LC_ALL": "C", "PYTHONUTF8": "0", "cwd": "/"},
-    {"PYTHONHASHSEED": "1", "LANG": "C.UTF-8", "LC_ALL": "C.UTF-8", "PYTHONUTF8": "1", "cwd": "tmp"},
+    {"PYTHONHASHSEED": "1", "LANG": "C.UTF-8", "LC_ALL": "C.UTF-8", "PYTHONUTF8": "1", "cwd": "tmp", "PYAB_CHILD_ORDER": "reverse"},
     {"PYTHONHASHSEED": "4242", "LANG": "tr_TR.UTF-8", "LC_ALL": "tr_TR.UTF-8", "PYTHONUTF8": "0", "cwd": "/usr"},
-    {"PYTHONHASHSEED": "random", "LANG": "POSIX", "LC_ALL": "POSIX", "PYTHONUTF8": "0", "cwd": "tmp"},
+    {"PYTHONHASHSEED": "random", "LANG": "POSIX", "LC_ALL": "POSIX", "PYTHONUTF8": "0", "cwd": "tmp", "PYAB_CHILD_ORDER": "interleave"},
     {"PYTHONHASHSEED": "random", "LANG": "C.UTF-8", "LC_ALL": "", "PYTHONUTF8": "1", "cwd": "/"},
-    {"PYTHONHASHSEED": "2", "LANG": "", "LC_ALL": "", "PYTHONUTF8": "0", "cwd": "/var"},
+    {"PYTHONHASHSEED": "2", "LANG": "", "LC_ALL": "", "PYTHONUTF8": "0", "cwd": "/var", "PYAB_CHILD_ORDER": "reverse"},
     {"PYTHONHASHSEED": "3", "LANG": "de_DE.ISO-8859-1", "LC_ALL": "de_DE.ISO-8859-1", "PYTHONUTF8": "0", "cwd": "/"},
     {"PYTHONHASHSEED": "4294967295", "LANG": "C", "LC_ALL": "C", "PYTHONUTF8": "1", "cwd": "/etc"},
     {"PYTHONHASHSEED": "random", "LANG": "C", "LC_ALL": "C", "PYTHONUTF8": "0", "cwd": "/"},
@@ -218,11 +218,11 @@ CONFIGS = [
     {"PYTHONHASHSEED": "12345", "LANG": "POSIX", "LC_ALL": "POSIX", "PYTHONUTF8": "1", "cwd": "tmp"},
     {"PYTHONHASHSEED": "99", "LANG": "tr_TR.UTF-8", "LC_ALL": "", "PYTHONUTF8": "1", "cwd": "/usr"},
     # a working directory nothing can be written to (not even by root): importing / compiling must not need the cwd
-    {"PYTHONHASHSEED": "7", "LANG": "C.UTF-8", "LC_ALL": "C.UTF-8", "PYTHONUTF8": "1", "cwd": "/proc"},
+    {"PYTHONHASHSEED": "7", "LANG": "C.UTF-8", "LC_ALL": "C.UTF-8", "PYTHONUTF8": "1", "cwd": "/proc", "PYAB_CHILD_ORDER": "reverse"},
     {"PYTHONHASHSEED": "random", "LANG": "C", "LC_ALL": "C", "PYTHONUTF8": "0", "cwd": "/proc/self"},
     # a working directory full of decoys: files NAMED like the source texts, the experiment names and usual config files, each
     # holding a different valid experiment - what a source text means must not depend on what lies around in the cwd
-    {"PYTHONHASHSEED": "5", "LANG": "C.UTF-8", "LC_ALL": "C.UTF-8", "PYTHONUTF8": "1", "cwd": "decoys"},
+    {"PYTHONHASHSEED": "5", "LANG": "C.UTF-8", "LC_ALL": "C.UTF-8", "PYTHONUTF8": "1", "cwd": "decoys", "PYAB_CHILD_ORDER": "interleave"},
 ]
 
 
@@ -244,6 +244,15 @@ def batches(draw, nprog, nconf):
     return {"batch": items, "configs": confs}
 
 
+def _wide(name, ws, salt):
+    return "def %s { salt: \"%s\" splitters: uid return %s }" % (name, salt, ", ".join('"g%d" weighted %s' % (i, w) for i, w in enumerate(ws)))
+
+
+# return statements with the same NUMBER of groups (12) and different weights, in several programs and in two branches of one:
+# evaluated in another order by some of the children (what a statement selects must not depend on what was evaluated before)
+WIDE_TEXTS = [_wide("wide_a", range(1, 13), "w"), _wide("wide_b", range(12, 0, -1), "w"), _wide("wide_c", [1] * 11 + [50], "w"),
+              'def wide_d { salt: "w" splitters: uid if plan == "pro" { return %s } else { return %s } }'
+              % (", ".join('"p%d" weighted %d' % (i, 1 + i % 3) for i in range(12)), ", ".join('"q%d" weighted %d' % (i, 5 - i % 5) for i in range(12)))]
 SHORT_TEXTS = ['def e{splitters:uid return 1 weighted 1,2 weighted 1}', 'def exp { splitters: uid return "A" weighted 1, "B" weighted 1 }',
                'def exp { salt: "s" splitters: uid, plan return "A" weighted 1, "B" weighted 3 }']
 DECOY = 'def %s { splitters: uid, plan return "DECOY" weighted 1 }'
@@ -279,13 +288,14 @@ def judge_batch(case):
     items = case["batch"]
     viol = []
     # parent observations (this process)
-    parent = []
     evs = {}
+    prepared = []
     for it in items:
         if it["text"] not in evs:
             evs[it["text"]] = sut.compile_text(it["text"])
-        r = evs[it["text"]]
-        parent.append(["compile-error", r[1]] if r[0] != "ok" else _canon(sut.call(r[1], M.dec_inputs(it["inputs"]))))
+        prepared.append((evs[it["text"]], M.dec_inputs(it["inputs"])))
+    raw = [sut.call(r[1], env) if r[0] == "ok" else None for r, env in prepared]  # back to back, nothing of the harness in between
+    parent = [["compile-error", r[1]] if r[0] != "ok" else _canon(o) for (r, env), o in zip(prepared, raw)]
     tmp = tempfile.mkdtemp(prefix="pyab_c01_")
     try:
         path = os.path.join(tmp, "batch.json")
@@ -430,6 +440,9 @@ def run(ctx, rec):
         # every child configuration (hash seeds, locales incl. C / POSIX with UTF-8 mode off, working directories) on a fixed batch
         # with non-ASCII salts and values, falsy values and several splitters
         fixed_items = []
+        for text in WIDE_TEXTS:
+            for u in range(6):
+                fixed_items.append({"text": text, "inputs": M.enc_inputs({"uid": "u%d" % u, "plan": ["pro", "free"][u % 2]}), "multi": True})
         for text in SHORT_TEXTS + ['def exp { salt: "é-日本" splitters: uid, plan return "A" weighted 1, "B" weighted 1, "C" weighted 2 }',
                                    'def exp { splitters: Zeta, alpha, Beta, uid return "A" weighted 1, "B" weighted 1, "C" weighted 1, "D" weighted 1 }']:
             for u in ["u1", "josé", "日本語", "\U0001f600", "", 0, None, 1.5, True, "İ", "ß"]:
